@@ -3,7 +3,8 @@
    answers is the explicit per-run contract (step_ok / loop_ok / tt_ok ...). *)
 From Coq Require Import List Arith ZArith Ring Lia Reals.
 From TLV Require Import Base.Shape Base.PyList Base.Tensor Base.Ops Model.SvdDecomp Proofs.SvdDecompProofs
-     Proofs.SvdDecompProofsR Proofs.SvdDecompTucker Proofs.SvdDecompTuckerFull Proofs.SvdDecompTuckerR.
+     Proofs.SvdDecompProofsR Proofs.SvdDecompTucker Proofs.SvdDecompTuckerFull Proofs.SvdDecompTuckerR
+     Proofs.SvdDecompRing Proofs.SvdDecompRingR.
 Import ListNotations.
 
 (* exactness of one TT-SVD step, over every commutative ring: truncating + sign-flipping a
@@ -161,4 +162,56 @@ Proof.
       destruct Hidx as (Hi & Hj & _).
       assert (Ei : i = 0 \/ i = 1) by lia. assert (Ej : j = 0 \/ j = 1) by lia.
       destruct Ei as [-> | ->]; destruct Ej as [-> | ->]; vm_compute; reflexivity.
+Qed.
+
+(* tensor ring: cyclicity of the trace of a chain of cores whose bonds match (every commutative ring) *)
+Theorem C09_tr_entry_rotate : forall (F : Type) (Op : fops F),
+  ring_theory (f0 Op) (f1 Op) (fadd Op) (fmul Op) (fsub Op) (fopp Op) (@eq F) ->
+  forall (A B : list (tensor F)) (l m : nat) (iA iB : list nat),
+  A <> [] -> B <> [] -> bonds l A m -> bonds m B l -> length iA = length A -> length iB = length B ->
+  tr_entry Op (B ++ A) (iB ++ iA) = tr_entry Op (A ++ B) (iA ++ iB).
+Proof. exact @tr_entry_rotate. Qed.
+Print Assumptions C09_tr_entry_rotate.
+
+(* tensor_ring, every order, every start mode, every rank request, every commutative ring: when no SVD call
+   of the run discards a non-zero singular value (tr_ok: the first call with its rank[0]*rank[1] triplets and
+   every call of the sequential loop), the ring contraction of the returned cores is the input, entry by entry *)
+Theorem C09_tensor_ring_exact : forall (F : Type) (Op : fops F),
+  ring_theory (f0 Op) (f1 Op) (fadd Op) (fmul Op) (fsub Op) (fopp Op) (@eq F) ->
+  forall (svd : nat -> tensor F -> svdans) (X : tensor F) (rank : rank_spec) (mode : nat) (cores : list (tensor F)),
+  tr_ok Op svd X rank mode -> tensor_ring Op svd X rank mode = Ok cores ->
+  forall idx, inb (shape X) idx -> tr_entry Op cores idx = get (f0 Op) X idx.
+Proof. exact @tensor_ring_exact. Qed.
+Print Assumptions C09_tensor_ring_exact.
+
+(* the same over R under the plain SVD contract *)
+Theorem C09_tensor_ring_exact_R : forall (svd : nat -> tensor R -> svdans) (X : tensor R) (rank : rank_spec)
+    (mode : nat) (cores : list (tensor R)),
+  tr_contract svd X rank mode -> tensor_ring Rops svd X rank mode = Ok cores ->
+  forall idx, inb (shape X) idx -> tr_entry Rops cores idx = get 0%R X idx.
+Proof. exact tensor_ring_exact_R. Qed.
+Print Assumptions C09_tensor_ring_exact_R.
+
+(* non-vacuity: start mode 1 on a rank-1 2x2 matrix, request (1,1,1) *)
+Example C09_nonvacuous_tr :
+  let X := mk [2; 2] [2; 0; 0; 0]%Z in
+  let svd := fun (_ : nat) (_ : tensor Z) => (mk [2; 2] [1; 0; 0; 1]%Z, [2; 0]%Z, mk [2; 2] [1; 0; 0; 1]%Z) in
+  tr_ok Zops svd X (inr [1; 1; 1]) 1 /\
+  tensor_ring Zops svd X (inr [1; 1; 1]) 1 = Ok [mk [1; 2; 1] [2; 0]%Z; mk [1; 2; 1] [1; 0]%Z].
+Proof.
+  cbv zeta. split; [|vm_compute; reflexivity].
+  unfold tr_ok. cbv zeta. cbn [validate_tr_rank ndim shape length Nat.add Nat.eqb hd last andb].
+  unfold tr_core_ok. cbv zeta. split; [|vm_compute; exact I].
+  exists 2.
+  change (hd 0 (shape (transpose (f0 Zops) (rotate 1 (seq 0 2)) (mk [2; 2] [2; 0; 0; 0]%Z)))) with 2.
+  change (prod (tl (shape (transpose (f0 Zops) (rotate 1 (seq 0 2)) (mk [2; 2] [2; 0; 0; 0]%Z))))) with 2.
+  change (nth 0 (tr_rotate_rank 2 1 [1; 1; 1]) 0 * nth 1 (tr_rotate_rank 2 1 [1; 1; 1]) 0) with 1.
+  split; [lia|]. split; [reflexivity|]. split; [reflexivity|]. split.
+  { intros i c Hi Hc.
+    assert (Ei : i = 0 \/ i = 1) by lia. assert (Ec : c = 0 \/ c = 1) by lia.
+    destruct Ei as [-> | ->]; destruct Ec as [-> | ->]; vm_compute; reflexivity. }
+  split.
+  { intros l H1 H2. assert (l = 1) by lia. subst. reflexivity. }
+  split; [simpl; lia|].
+  vm_compute. repeat constructor.
 Qed.
